@@ -45,22 +45,38 @@ def gen_trig(rng, allow_clash):
             ops.append(["bare"])
         elif r < 0.8:
             ops.append(["connect", e])
-        elif r < 0.92:
+        elif r < 0.90:
             ops.append(["disconnect", e])
-        else:
+        elif r < 0.95:
             ops.append(["reset"])
-    return {"fam": "trig", "ops": ops}
+        else:
+            ops.append(["give"])       # the owner's missing input is supplied: from now on its run succeeds
+    # the owner starts without data half of the time: firing then raises ReadinessError inside the callback
+    return {"fam": "trig", "ops": ops, "needy": rng.random() < 0.5}
 
 
 def run_trig(case):
+    from pyiron_workflow.mixin.run import ReadinessError
     nodes.reset()
-    target = nodes.Lin0(label="target", tag=99, k=1)
+    if case.get("needy"):
+        target = nodes.Lin1(label="target", tag=99, k=1)      # input `a` holds no data: run() is refused
+    else:
+        target = nodes.Lin0(label="target", tag=99, k=1)
     target.use_cache = False
+    target.recovery = None
+    fired = []
+    real_run = target.run
+
+    def counting_run(*a, **k):          # the trigger's callback is looked up by name on the owner
+        fired.append(1)
+        return real_run(*a, **k)
+    target.run = counting_run
     ems = [nodes.Lin0(label=LABELS[i], tag=i, k=i) for i in range(4)]
     acc = target.signals.input.accumulate_and_run
     fires = []
+    sizes = []
     for op in case["ops"]:
-        before = len(nodes.CALLS)
+        before = len(fired)
         try:
             if op[0] == "arrive":
                 acc(ems[op[1]].signals.output.ran)
@@ -72,11 +88,17 @@ def run_trig(case):
                 acc.disconnect(ems[op[1]].signals.output.ran)
             elif op[0] == "reset":
                 acc.reset()
+            elif op[0] == "give":
+                if case.get("needy"):
+                    target.inputs.a.value = 5
+        except ReadinessError:
+            pass                        # the owner refused to run; the trigger did fire
         except Exception as e:
             return ["EXC", type(e).__name__]
-        fires.append(len(nodes.CALLS) > before)
+        fires.append(len(fired) > before)
+        sizes.append(len(acc.received_signals))
     idx = {id(e.signals.output.ran): i for i, e in enumerate(ems)}
-    return [fires, [idx[id(c)] for c in acc.connections], len(acc.received_signals)]
+    return [[[f, n] for f, n in zip(fires, sizes)], [idx[id(c)] for c in acc.connections]]
 
 
 def trig_term(case):
@@ -92,17 +114,20 @@ def trig_term(case):
             ops.append(f"Connect {em(op[1])}")
         elif op[0] == "disconnect":
             ops.append(f"Disconnect {em(op[1])}")
-        else:
+        elif op[0] == "reset":
             ops.append("Reset")
-    return f"obs_trun {cl(ops)}"
+        # "give" touches the owner only, not the trigger
+    return f"obs_trun_steps {cl(ops)}"
 
 
 def trig_oracle(case, obs):
     if obs and obs[0] == "EXC":
         return f"crash: trigger operation raised {obs[1]}"
-    fires = obs[0]
+    steps = obs[0]
     conns, arr = [], set()
-    for op, fired in zip(case["ops"], fires):
+    for op, (fired, size) in zip(case["ops"], steps):
+        if fired and size != 0:
+            return "not-fresh: the all-of trigger fired but did not start a fresh round (received signals were kept)"
         expect = False
         if op[0] == "arrive":
             arr.add(op[1])
@@ -124,6 +149,13 @@ def trig_oracle(case, obs):
         if expect and not fired:
             return "missed-fire: the round was complete but the all-of trigger did not fire"
     return None
+
+
+def trig_view(case, obs):
+    """the model has no step for "give": drop those entries"""
+    if not (isinstance(obs, list) and obs and isinstance(obs[0], list)):
+        return obs
+    return [[st for op, st in zip(case["ops"], obs[0]) if op[0] != "give"], obs[1]]
 
 
 def trig_clash(case):
@@ -422,6 +454,10 @@ def model_term(case):
     return trig_term(case) if case["fam"] == "trig" else flow_term(case)
 
 
+def model_view(case, obs):
+    return trig_view(case, obs) if case["fam"] == "trig" else obs
+
+
 def oracle(case, obs):
     return trig_oracle(case, obs) if case["fam"] == "trig" else flow_oracle(case, obs)
 
@@ -434,7 +470,8 @@ def known(case, obs, verdict):
 
 def nontrivial(case, obs):
     if case["fam"] == "trig":
-        return isinstance(obs, list) and any(obs[0]) and sum(1 for o in case["ops"] if o[0] == "connect") >= 2
+        return (isinstance(obs, list) and obs and isinstance(obs[0], list) and any(f for f, n in obs[0])
+                and sum(1 for o in case["ops"] if o[0] == "connect") >= 2)
     return isinstance(obs, list) and len(obs[0][0][1]) >= 3
 
 
@@ -446,7 +483,7 @@ def shrink_candidates(case):
     if case["fam"] == "trig":
         ops = case["ops"]
         for i in range(len(ops)):
-            yield {"fam": "trig", "ops": ops[:i] + ops[i + 1:]}
+            yield dict(case, ops=ops[:i] + ops[i + 1:])
     else:
         if case["again"]:
             yield dict(case, again=False)
@@ -465,7 +502,7 @@ def distribution(results):
     for c, enc, v, o in results:
         d[c["fam"]] += 1
         if c["fam"] == "trig" and isinstance(o, list) and o and isinstance(o[0], list):
-            d["trig_fires"] += sum(1 for x in o[0] if x)
+            d["trig_fires"] += sum(1 for f, n in o[0] if f)
         elif c["fam"] == "flow" and isinstance(o, list):
             for (tag, prov, outs, errc), calls in o:
                 d["flow_runs_total"] += len(prov)
